@@ -219,6 +219,27 @@ func (s *Sched) Finish() {
 	}()
 }
 
+// Mark appends a marker (e.g. a repository-call boundary) of process id to the trace.
+func (s *Sched) Mark(id int, text string) {
+	s.mu.Lock()
+	s.Trace = append(s.Trace, fmt.Sprintf("%d:%s", id, text))
+	s.mu.Unlock()
+}
+
+// CountMarks counts trace entries of process id that start with prefix.
+func (s *Sched) CountMarks(id int, prefix string) int {
+	s.mu.Lock()
+	defer s.mu.Unlock()
+	n := 0
+	p := fmt.Sprintf("%d:%s", id, prefix)
+	for _, t := range s.Trace {
+		if strings.HasPrefix(t, p) {
+			n++
+		}
+	}
+	return n
+}
+
 func (s *Sched) record(id int, kind, reply string) {
 	s.mu.Lock()
 	s.Trace = append(s.Trace, fmt.Sprintf("%d:%s:%s", id, kind, reply))
